@@ -4,7 +4,8 @@
    lexer, a row evaluator).  [mt] is the regular-expression engine of the storage (match()), universally
    quantified: every theorem holds for any engine. *)
 From Coq Require Import ZArith List Bool String.
-From SH Require Import Common.Wrap SqlFilter.Model SqlFilter.ProofsLex SqlFilter.ProofsStruct SqlFilter.ProofsSem.
+From SH Require Import Common.Wrap SqlFilter.Model SqlFilter.ProofsLex SqlFilter.ProofsStruct SqlFilter.ProofsSem
+  SqlFilter.Parser SqlFilter.ProofsParse SqlFilter.ProofsFull.
 Import ListNotations.
 Open Scope Z_scope.
 
@@ -22,12 +23,48 @@ Proof. exact literal_roundtrip. Qed.
    literal" — for every query description (any filters, any metric description, all three query modes)
    the text written by writeWhere lexes, under the ClickHouse lexer model, to exactly the token list derived
    from the condition AST: user strings are the payloads of TS tokens and nothing else.
-   PARTIAL with respect to "well-formed": this is lexical well-formedness. That the token list parses as a
-   condition is true by construction of [where_toks] from the AST but no parser round trip is proved in Coq;
-   the harness parses and evaluates every generated clause (oracle where_well_formed). *)
+   (Lexical half of "well-formed"; the grammatical half is C26_where_parses_to_own_condition below.) *)
 Theorem C26_where_lexes_to_own_tokens :
   forall q, lex (print_where q) = Some (where_toks (build_where q)).
 Proof. exact where_lexes_to_own_tokens. Qed.
+
+(* "the generated storage query is well-formed" — grammatical half: a parser for the condition grammar
+   (SqlFilter/Parser.v: AND/OR groups, [NOT] IN lists of numbers or literals, [NOT] match(col, literal),
+   [NOT] (expr = 0 [AND col = '']), 0=0, 0!=0, raw64 bitOr expressions; whitespace-insensitive) applied to the
+   token list of ANY query gives back exactly the condition the text was printed from ([syn_where] only forgets
+   what a SELECT alias _tagN stands for: it prints as its name). *)
+Theorem C26_tokens_parse_to_own_condition :
+  forall q, p_where (strip (where_toks (build_where q))) = Some (syn_where (build_where q)).
+Proof. exact parse_tokens_roundtrip. Qed.
+
+(* lexer and parser together, on the text: for all filter strings the written clause parses back to the
+   condition AST it was built from — no byte of a user string can add, remove or change a node. *)
+Theorem C26_where_parses_to_own_condition :
+  forall q, parse_where (print_where q) = Some (syn_where (build_where q)).
+Proof. exact parse_where_roundtrip. Qed.
+
+(* the parser is a left inverse for every canonical condition, not only for the ones of the examples:
+   groups non-empty, IN lists non-empty, identifiers not starting like 0/NOT/match/bitOr, one-atom groups
+   polarised by their atom, inclusion groups before exclusion groups *)
+Theorem C26_parser_left_inverse :
+  forall w, wcanon w = true -> p_where (strip (where_toks w)) = Some w.
+Proof. exact p_where_rt. Qed.
+
+(* the clause inside the complete series / tag-values / tag-value-ids queries. The text around the clause
+   (SELECT … FROM table before; GROUP BY / HAVING / ORDER BY / LIMIT / SETTINGS after) takes NO user string: it
+   is a function of the requested aggregates, group-by tag indices, sort, result limit, tag index, step and
+   UTC offset, table name and settings. Its generation is not modelled (PARTIAL): the theorem says that for
+   any surrounding token lists that are themselves well formed the whole text lexes to the concatenation and
+   its literals are those of the surroundings plus those of the clause; the correspondence check lexes the real
+   surroundings of every generated query, checks they are well formed, contain no literal at all and are
+   byte-identical when the filter strings are replaced. *)
+Theorem C26_full_query_lexes_partial :
+  forall pre suf q q1 q2,
+  chk true pre = Some q1 -> chk false suf = Some q2 ->
+  lex (render (pre ++ where_toks (build_where q) ++ suf)) = Some (pre ++ where_toks (build_where q) ++ suf)
+  /\ literals (pre ++ where_toks (build_where q) ++ suf)
+     = literals pre ++ literals (where_toks (build_where q)) ++ literals suf.
+Proof. exact full_query_lexes. Qed.
 
 (* "filter values cannot change the structure": replacing every user string by a harmless one of the same
    emptiness ("" stays "", anything else becomes "x") leaves the token structure (everything except the
@@ -99,4 +136,23 @@ Example C26_nonvacuous_rows :
   eval_where never (ex_row 0 "x" 5 1 "") (build_where ex_q) = false /\
   eval_where never (ex_row (-2) "" 5 2 "") (build_where ex_q) = false /\
   eval_where always (ex_row (-2) "" 5 1 "") (build_where ex_q) = false.
+Proof. vm_compute. repeat split. Qed.
+
+(* the hostile example parses back to its own condition: two inclusion groups (three and one atoms), one
+   exclusion group with the regex, the hostile string is the payload of one AStrIn node *)
+Example C26_nonvacuous_parse :
+  parse_where (print_where ex_q) = Some (syn_where (build_where ex_q))
+  /\ wcanon (syn_where (build_where ex_q)) = true
+  /\ List.map (fun t => List.length (tc_atoms t)) (w_in (build_where ex_q)) = [3%nat; 1%nat]
+  /\ List.map tc_atoms (w_notin (build_where ex_q)) = [[AConst true; AMatch true (col_str 0) (txt "^a'\")]]
+  /\ nth 1 (tc_atoms (hd {| tc_or := true; tc_atoms := [] |} (w_in (build_where ex_q)))) (AConst true)
+     = AStrIn false (col_str 1) [hostile].
+Proof. vm_compute. repeat split. Qed.
+
+(* a complete query around the hostile clause *)
+Example C26_nonvacuous_full :
+  let pre := [W "SELECT"; TSp; W "tag1"; P ","; W "stag1"; TSp; W "FROM"; TSp; W "statshouse_v6_1m_dist"] in
+  let suf := [TSp; W "GROUP"; TSp; W "BY"; TSp; W "tag1"; P ","; W "stag1"; TSp; W "LIMIT"; TSp; W "6"] in
+  chk true pre = Some false /\ chk false suf = Some false
+  /\ literals (pre ++ where_toks (build_where ex_q) ++ suf) = [[]; hostile; []; txt "^a'\"].
 Proof. vm_compute. repeat split. Qed.
